@@ -5,9 +5,9 @@ package primers
 // C17: De Bruijn barcodes are unique, non-overlapping in n-mers and ban-free.
 //
 // verif:bound C17 sequence clause: orders 1..4 (quick) / 1..6 (thorough); a closed computation executed by the engine (no symbolic input, the solver decides nothing here)
-// verif:bound C17 barcode clauses: order 2 (quick) / 2..3 (thorough), barcode length n..5 (quick) / n..7 (thorough), 0..2 banned sequences as symbolic strings of length 2..3 over ATGC, 0..2 filters, each rejecting an arbitrary (symbolic) set of at most 1 (quick) / 2 (thorough) windows; at most 2 (quick) / 3 (thorough) bans+filters together
+// verif:bound C17 barcode clauses: order 2 (quick) / 2..3 (thorough), barcode length n..5 (quick) / n..7 at order 2 and 3..5 at order 3 (thorough), 0..2 banned sequences as symbolic strings of length 2..3 over ATGC, 0..2 filters, each rejecting an arbitrary (symbolic) set of windows (one window per filter; two when there is a single filter in the thorough tier at order 2); at most 2 (quick) / 3 (thorough, order 2) / 1 (thorough, order 3) bans+filters together
 // verif:bound C17 short-ban clause: order 3, barcode length 3..4 (quick) / 3..5 (thorough), one or two symbolic bans of length 1..2 (shorter than the order, so they occur many times)
-// verif:bound C17 outside the claim: orders 7..11 for the sequence, orders > 3 and lengths > 6 for barcodes, more than 2 bans / filters
+// verif:bound C17 outside the claim: orders 7..11 for the sequence, orders > 3 and lengths > 7 for barcodes, more than one ban or filter at order 3, more than 2 bans / filters
 
 func c17Contains(hay, needle string) bool {
 	r := vOr()
@@ -55,9 +55,12 @@ func Harness_C17_Sequence() {
 func Harness_C17_Barcodes() {
 	order := 2 + vChoice(vTier(1, 2))
 	length := order + vChoice(vTier(4, 6)+2-order)
+	if order == 3 {
+		length = 3 + vChoice(3) // order 3: lengths 3..5
+	}
 	nb := vChoice(3)
 	nf := vChoice(3)
-	if nb+nf > vTier(2, 3) {
+	if nb+nf > vTier(2, 3) || (order == 3 && nb+nf > 1) {
 		vAssume(false)
 	}
 	var bans []string
@@ -69,7 +72,11 @@ func Harness_C17_Barcodes() {
 	var rejected [][]string
 	for i := 0; i < nf; i++ {
 		var rs []string
-		for j := 0; j < vTier(1, 2); j++ {
+		nrej := vTier(1, 2)
+		if order == 3 || nf > 1 {
+			nrej = 1 // at most two symbolic rejected windows in total
+		}
+		for j := 0; j < nrej; j++ {
 			rs = append(rs, vBytes(length, "ATGC"))
 		}
 		rejected = append(rejected, rs)
